@@ -205,3 +205,60 @@ func VerifH_C08_append_certs_from_pem() {
 		vr.Cover("none-added")
 	}
 }
+
+// C08 (d): Sum yields an independent pool. Whatever the operands are (nil, empty or
+// populated), a certificate added to the sum afterwards, or to an operand afterwards,
+// appears only in the pool it was added to: each pool still "contains exactly the
+// distinct certificates added" to it.
+// verif: covers=done
+func VerifH_C08_sum_is_independent() {
+	var p, q *CertPool
+	m, mq := &c08Model{}, &c08Model{}
+	switch vr.Pick(vr.Int("firstKind", 0, 2)) { // 0 nil, 1 empty, 2 one certificate
+	case 1:
+		p = NewCertPool()
+	case 2:
+		p = NewCertPool()
+		c := c08Cert()
+		p.AddCert(c)
+		m.add(c)
+	}
+	switch vr.Pick(vr.Int("secondKind", 0, 2)) {
+	case 1:
+		q = NewCertPool()
+	case 2:
+		q = NewCertPool()
+		c := c08Cert()
+		q.AddCert(c)
+		mq.add(c)
+	}
+	sum := p.Sum(q)
+	ms := &c08Model{}
+	for _, c := range m.certs {
+		ms.add(c)
+	}
+	for _, c := range mq.certs {
+		ms.add(c)
+	}
+	vr.Assert(sum != nil, "Sum returns a pool")
+	c08Check(sum, ms, "sum")
+	late := c08Cert()
+	if vr.Bool("lateIntoSum") {
+		sum.AddCert(late)
+		ms.add(late)
+	} else if p != nil {
+		p.AddCert(late)
+		m.add(late)
+	} else if q != nil {
+		q.AddCert(late)
+		mq.add(late)
+	}
+	c08Check(sum, ms, "sum after a later insertion")
+	if p != nil {
+		c08Check(p, m, "first operand after a later insertion")
+	}
+	if q != nil {
+		c08Check(q, mq, "second operand after a later insertion")
+	}
+	vr.Cover("done")
+}
